@@ -14,7 +14,7 @@ META = {
 }
 SDL = """
 directive @g on ARGUMENT_DEFINITION
-type Leaf { n: Int! }
+type Leaf { n: Int! tag: String after: Int }
 type Mid { n: Int leaf: Leaf leaves: [Leaf] nnl: [Leaf!] }
 type Query { n: Int mid: Mid mids: [Mid] sum(a: Int @g, b: Int @g): Int m2: Mid }
 """
@@ -77,10 +77,10 @@ ENGS.append(build(SDL, "c08_ov", custom_default_resolver=universal, query_cache_
 
 # the list sub-selection carries collection-time directives (@include / @skip: their arguments are coerced while the fields are collected,
 # once per list item, possibly concurrently)
-Q = "{ n mid { n leaf { n } leaves { n @skip(if: false) } } mids { n @include(if: true) k: n @skip(if: false) z: n @include(if: false) } sum(a: 1, b: 2) s2: sum(b: 2) s3: sum m2 { leaf { n } nnl { n } } }"
-LEAF = {"n": 3}
+Q = "{ n mid { n leaf { n tag after } leaves { n @skip(if: false) } } mids { n @include(if: true) k: n @skip(if: false) z: n @include(if: false) } sum(a: 1, b: 2) s2: sum(b: 2) s3: sum m2 { leaf { tag n after } nnl { n tag } } }"
+LEAF = {"n": 3, "tag": "t", "after": 1}
 MID = {"n": 2, "leaf": LEAF, "leaves": [LEAF, {"n": 4}]}
-DATA = {"n": 1, "mid": MID, "mids": [MID, {"n": 5}], "m2": {"leaf": {"n": 6}, "nnl": [{"n": 7}, {"n": 8}, {"n": 9}]}}
+DATA = {"n": 1, "mid": MID, "mids": [MID, {"n": 5}], "m2": {"leaf": {"n": 6, "tag": "u", "after": 2}, "nnl": [{"n": 7, "tag": "a"}, {"n": 8, "tag": "b"}, {"n": 9, "tag": "c"}]}}
 LAYOUTS = {
     "fields": ([("n",), ("mid", "n"), ("mid", "leaf", "n"), ("mids", 0, "n"), ("mids", 1, "n")], []),
     "args": ([("arg", "a"), ("arg", "b"), ("n",), ("mid",)], []),
